@@ -5,6 +5,7 @@ that covers all commands, including ones that fail or overshoot, without modelli
 -/
 import Vicut.Model.Field
 import Vicut.Model.Block
+import Vicut.Props.C09
 
 namespace Vicut.C01
 open Vicut
@@ -203,5 +204,53 @@ example : windows ("abcd\nwxyz\n".toList.map (fun c => [c])) 0 8 = some [(0, 4),
 example : windows ("q\n42\n".toList.map (fun c => [c])) 0 1 = some [(0, 1)] := by decide
 /-- short lines in between give short or empty rows -/
 example : windows ("abc\n\nxyz\n".toList.map (fun c => [c])) 1 7 = some [(1, 3), (4, 4), (6, 8)] := by decide
+
+end Vicut.C01Block
+namespace Vicut.C01Block
+open Vicut Vicut.Block
+
+theorem lineBoundsAux_bounds (max n : Nat) (gs : List Gr) (pos start : Nat) (hs : start ≤ pos)
+    (hmax : pos + gs.length ≤ max) :
+    (lineBoundsAux max n gs pos start).1 ≤ (lineBoundsAux max n gs pos start).2 ∧
+      (lineBoundsAux max n gs pos start).2 ≤ max := by
+  induction n generalizing gs pos start with
+  | zero =>
+    cases ha : afterNl gs pos with
+    | none => simp only [lineBoundsAux, ha]; omega
+    | some p =>
+      obtain ⟨e, rest⟩ := p
+      simp only [lineBoundsAux, ha]
+      obtain ⟨j, hj, he, _, _, _⟩ := C09.afterNl_some ha
+      omega
+  | succ m ih =>
+    cases ha : afterNl gs pos with
+    | none => simp only [lineBoundsAux, ha]; omega
+    | some p =>
+      obtain ⟨e, rest⟩ := p
+      simp only [lineBoundsAux, ha]
+      obtain ⟨j, hj, he, hr, _, _⟩ := C09.afterNl_some ha
+      have hrl : rest.length = gs.length - (j + 1) := by rw [hr]; simp
+      have hemax : min e max = e := by omega
+      rw [hemax]
+      exact ih rest e e (Nat.le_refl _) (by omega)
+
+theorem lineBounds_bounds (gs : List Gr) (n : Nat) (b : Nat × Nat) (h : lineBounds gs n = some b) :
+    b.1 ≤ b.2 ∧ b.2 ≤ gs.length := by
+  unfold lineBounds at h
+  split at h
+  · cases h
+  · cases h
+    exact lineBoundsAux_bounds gs.length n gs 0 0 (Nat.le_refl _) (by omega)
+
+/-- **A block selection lies inside the text**: every window is ordered and ends at or before the end of the
+text (what `selected_content` and the field slice rely on). -/
+theorem windows_inside_text (gs : List Gr) (anchor cur : Nat) (ws : List (Nat × Nat)) (h : windows gs anchor cur = some ws) :
+    ∀ w ∈ ws, w.1 ≤ w.2 ∧ w.2 ≤ gs.length := by
+  obtain ⟨ac, cc, hr⟩ := windows_are_rows gs anchor cur ws h
+  intro w hw
+  obtain ⟨ln, b, hb, rfl, _⟩ := hr w hw
+  obtain ⟨h1, h2⟩ := lineBounds_bounds gs ln b hb
+  have := row_within gs ac cc b h1
+  exact ⟨row_ordered gs ac cc b, by omega⟩
 
 end Vicut.C01Block
